@@ -125,6 +125,14 @@ impl Rollback {
                 Ok(())
             },
         )?;
+        #[cfg(feature = "verif-hooks")]
+        let seglog = {
+            let mut seglog = seglog;
+            if let Some(n) = crate::verif::rollback_segment_size() {
+                seglog.verif_set_max_segment_size(n);
+            }
+            seglog
+        };
         let shared = Arc::new(Shared {
             worker_tp: ThreadPool::with_name("rollback-worker".into(), ROLLBACK_TP_SIZE),
             sync_tp: ThreadPool::with_name("rollback-sync".into(), 1),
